@@ -62,6 +62,9 @@ func newHelper(f *ssa.Function) bool {
 	for root.Parent() != nil {
 		root = root.Parent()
 	}
+	if _, ok := aliasOf(root); ok {
+		return false
+	}
 	return !refFuncs[FuncKey(root)] && !refFuncs[FuncKey(f)]
 }
 
@@ -244,6 +247,124 @@ func storesThenLoads(f *ssa.Function) bool {
 	return false
 }
 
+// shiftOrRead: b[i]<<24 | b[i+1]<<16 | b[i+2]<<8 | b[i+3] (any order of the operands, any width
+// 2/4/8) is the hand-written form of binary.BigEndian.Uint32(b[i:i+4]); ascending shifts are the
+// little-endian one. It is rendered as that call, so rules see one spelling.
+func (r *Renderer) shiftOrRead(x *ssa.BinOp, depth int) (string, bool) {
+	type term struct {
+		idx, shift int64
+	}
+	var terms []term
+	var base ssa.Value
+	ok := true
+	var walk func(v ssa.Value)
+	walk = func(v ssa.Value) {
+		if !ok {
+			return
+		}
+		for {
+			if cv, isC := v.(*ssa.Convert); isC {
+				v = cv.X
+				continue
+			}
+			break
+		}
+		if bo, isB := v.(*ssa.BinOp); isB && bo.Op == token.OR {
+			walk(bo.X)
+			walk(bo.Y)
+			return
+		}
+		var shift int64
+		if bo, isB := v.(*ssa.BinOp); isB && bo.Op == token.SHL {
+			k, isK := bo.Y.(*ssa.Const)
+			if !isK || k.Value == nil {
+				ok = false
+				return
+			}
+			sh, isI := constInt64(k.Value)
+			if !isI {
+				ok = false
+				return
+			}
+			shift = sh
+			v = bo.X
+			for {
+				if cv, isC := v.(*ssa.Convert); isC {
+					v = cv.X
+					continue
+				}
+				break
+			}
+		}
+		ld, isL := v.(*ssa.UnOp)
+		if !isL || ld.Op != token.MUL {
+			ok = false
+			return
+		}
+		ia, isIA := ld.X.(*ssa.IndexAddr)
+		if !isIA {
+			ok = false
+			return
+		}
+		k, isK := ia.Index.(*ssa.Const)
+		if !isK || k.Value == nil {
+			ok = false
+			return
+		}
+		idx, isI := constInt64(k.Value)
+		if !isI || (base != nil && ia.X != base) {
+			ok = false
+			return
+		}
+		if _, isSl := ia.X.Type().Underlying().(*types.Slice); !isSl {
+			ok = false
+			return
+		}
+		base = ia.X
+		terms = append(terms, term{idx, shift})
+	}
+	walk(x)
+	n := int64(len(terms))
+	if !ok || base == nil || (n != 2 && n != 4 && n != 8) {
+		return "", false
+	}
+	sort.Slice(terms, func(i, j int) bool { return terms[i].idx < terms[j].idx })
+	i0 := terms[0].idx
+	be, le := true, true
+	for k, t := range terms {
+		if t.idx != i0+int64(k) {
+			return "", false
+		}
+		if t.shift != 8*(n-1-int64(k)) {
+			be = false
+		}
+		if t.shift != 8*int64(k) {
+			le = false
+		}
+	}
+	if !be && !le {
+		return "", false
+	}
+	b := r.render(base, depth+1)
+	whole := false
+	if i0 == 0 {
+		if sl, isSl := base.(*ssa.Slice); isSl && sl.High != nil {
+			if k, isK := sl.High.(*ssa.Const); isK && k.Value != nil {
+				if h, isI := constInt64(k.Value); isI && h == n {
+					whole = true
+				}
+			}
+		}
+	}
+	if !whole {
+		b = fmt.Sprintf("%s[%d:%d]", b, i0, i0+n)
+	}
+	if be {
+		return fmt.Sprintf("encoding/binary.(bigEndian).Uint%d(encoding/binary.BigEndian, %s)", 8*n, b), true
+	}
+	return fmt.Sprintf("encoding/binary.(littleEndian).Uint%d(encoding/binary.LittleEndian, %s)", 8*n, b), true
+}
+
 // pureGetter: a module function that only reads a field path of its receiver / parameters and
 // returns it (x.GetF() ≡ x.a.F): rendering the call as that path is always faithful.
 func pureGetter(f *ssa.Function) bool {
@@ -306,6 +427,9 @@ func pkgQual(p *types.Package) string {
 func calleeName(fn *ssa.Function) string {
 	if fn == nil {
 		return "?"
+	}
+	if k, ok := aliasOf(fn); ok {
+		return k
 	}
 	if fn.Parent() != nil {
 		return FuncKey(fn)
@@ -828,6 +952,11 @@ func (r *Renderer) render1(v ssa.Value, depth int) string {
 				return r.loopVar(phi)
 			}
 		}
+		if x.Op == token.OR {
+			if s, ok := r.shiftOrRead(x, depth); ok {
+				return s
+			}
+		}
 		a, b := r.render(x.X, depth+1), r.render(x.Y, depth+1)
 		op := x.Op
 		switch op {
@@ -1055,7 +1184,7 @@ func (r *Renderer) renderCall(c *ssa.CallCommon, depth int) string {
 	}
 	switch f := c.Value.(type) {
 	case *ssa.Function:
-		return calleeName(f) + "(" + r.args(c.Args, depth) + ")"
+		return calleeName(f) + "(" + r.args(refOrderArgs(f, c.Args), depth) + ")"
 	case *ssa.Builtin:
 		if f.Name() == "len" && len(c.Args) == 1 {
 			if call, ok := c.Args[0].(*ssa.Call); ok {
@@ -1080,22 +1209,55 @@ func (r *Renderer) renderCall(c *ssa.CallCommon, depth int) string {
 // function has now — so renaming a parameter does not trip a rule.
 func substParams(fn *ssa.Function, pat string) string {
 	params := fn.Params
-	if fn.Signature.Recv() != nil && len(params) > 0 {
+	isMethod := fn.Signature.Recv() != nil
+	if isMethod && len(params) > 0 {
 		params = params[1:]
 	}
-	// replace higher indexes first (@10 before @1)
-	for i := len(params) - 1; i >= 0; i-- {
-		pat = strings.ReplaceAll(pat, fmt.Sprintf("@%d", i), params[i].Name())
+	// the function's parameters in reference order (see sigalias.go); names[i] is what the i-th
+	// reference parameter (receiver excluded) is called in the function now
+	key := FuncKey(fn)
+	if a, ok := aliasOf(fn); ok {
+		key = a
 	}
-	ref, ok := refParams[FuncKey(fn)]
-	if !ok || len(ref) != len(params) {
+	var names []string
+	recvNow := "" // what the reference receiver is called now (when it is no longer the receiver)
+	if perm := permOf(fn); perm != nil {
+		off := 0
+		if refIsMethod(key) {
+			off = 1
+			if !(isMethod && perm[0] == 0) {
+				recvNow = fn.Params[perm[0]].Name()
+			}
+		}
+		for i := off; i < len(perm); i++ {
+			p := fn.Params[perm[i]]
+			if isMethod && perm[i] == 0 {
+				names = append(names, "recv")
+			} else {
+				names = append(names, p.Name())
+			}
+		}
+	} else {
+		for _, p := range params {
+			names = append(names, p.Name())
+		}
+	}
+	// replace higher indexes first (@10 before @1)
+	for i := len(names) - 1; i >= 0; i-- {
+		pat = strings.ReplaceAll(pat, fmt.Sprintf("@%d", i), names[i])
+	}
+	ref, ok := refParams[key]
+	if !ok || len(ref) != len(names) {
 		return pat
 	}
 	ren := map[string]string{}
-	for i, p := range params {
-		if ref[i] != p.Name() && ref[i] != "" && ref[i] != "_" {
-			ren[ref[i]] = p.Name()
+	for i, n := range names {
+		if ref[i] != n && ref[i] != "" && ref[i] != "_" {
+			ren[ref[i]] = n
 		}
+	}
+	if recvNow != "" {
+		ren["recv"] = recvNow
 	}
 	if len(ren) == 0 {
 		return pat
